@@ -23,6 +23,9 @@ CHECKS = {
  "C08": dict(level="exploration", technique="property-based testing (proptest): generated libraries and rename sites, WorkspaceEdit applied to an in-memory copy and judged by independent re-scan (link tables, content fingerprints)",
    text="For generated libraries, every link occurrence to an existing note as rename site and free / taken / sub-directory names: the returned edit is applied to a copy and re-scanned; old key gone, new key present, every link resolves where it must with acceptable text, link counts and content fingerprints unchanged, unrelated notes untouched, taken names refused.",
    note="Edit shapes understood: create, delete, full-range replace, insert at start.", ref="7/C08"),
+ "C11": dict(level="exploration", technique="property-based testing over schedules: generated event lists with Advance(worker, point) steps; the harness owns the interleaving through the verif pause points; state-after-quiescence and per-request oracles",
+   text="Schedules are generated values: every interleaving of the message loop with request workers at the granularity started / result computed / response sent / exited is reachable and replays exactly. Oracle: no notification handler panics or is skipped, the final state equals the last texts sent, requests after a notification see it.",
+   note="Needs the verif hooks (cargo feature). Interleavings inside handlers are not explored.", ref="7/C11"),
  "C12": dict(level="exploration", technique="property-based testing (proptest): generated request/notification sequences against the in-memory LSP server, one-response-per-id oracle with event-based no-response detection and liveness probes",
    text="Sequences over all advertised methods and unknown ones with well-typed arbitrary parameters (unknown uris, huge positions, stale/missing code-action data, unknown commands); every request id must get exactly one response, probes must be answered, shutdown/exit must end the loop.",
    note="A request counts as unanswered when its worker thread is seen to panic (hook) and no response was sent; a 30 s backstop ends in inconclusive, not violation.", ref="7/C12"),
@@ -55,8 +58,8 @@ def main():
     m = {
       "version": 1,
       "setup_cmd": "cd /verif && ./setup.sh",
-      "hooks": {"guard": "verif", "enable": "cargo feature `verif` on crate iwes (path dependency of /verif/engine enables it); no hook commit exists yet", 
-                "baseline_off_cmd": "cd /repo && cargo test --workspace --no-fail-fast --offline", "source_commits": [], "add_only": True},
+      "hooks": {"guard": "verif", "enable": "cargo feature `verif` on crate iwes; /verif/engine depends on iwes with features = [\"verif\"]", 
+                "baseline_off_cmd": "cd /repo && cargo test --workspace --no-fail-fast --offline", "source_commits": ["a2bdc31"], "add_only": True},
       "engines": [{"name": "vcheck", "path": "/verif/engine", "serves_properties": claimed,
                    "kind_free_text": "Rust crate: proptest-driven generators, independent pulldown-cmark scanner, supervisor/worker processes, known-findings policy"}],
       "checks": [],
